@@ -430,7 +430,7 @@ SCALARS = {
     'rate': [0, 1, 1e-300, 1e-12, 0.1, 10, 50, 3.7, 1e12, 1e300, -1, -0.5, 2, 0.25],
     'time_prob': [0, 1, 0.0, 1.0, 1e-300, 1e-12, 1e-6, 0.001, 0.1, 0.5, 0.9, 0.999, 1 - 1e-12, 1.0000001, 1.5, -0.1, -1e-12, 2, 0.3, 0.05],
     'beta': [0, 1, 1e-12, 1e-6, 0.001, 0.1, 0.5, 0.9, 0.999, 1.5, -0.1, 0.05, 0.02],
-    'rate_prob': [0, 0.0, 1, 1e-300, 1e-12, 1e-6, 0.1, 0.5, 2, 10, 700, 1e300, -0.1, -1e-12, -3, 0.7],
+    'rate_prob': [0, 0.0, 1, 1e-300, 1e-12, 1e-6, 0.1, 0.5, 2, 10, 20, 37, 52, 120, 700, 1e300, -0.1, -1e-12, -3, 0.7],
 }
 
 
@@ -636,6 +636,9 @@ def correspond(ctx):
             break
     # --- (2b) distributions wrapped in a TimePar
     r2.corr_dist_wrapping(ctx, me)
+    # --- (2c) array identity: which ndarray objects `v` and `values` are, through histories of one object
+    from harness.props import c06_round3 as r3
+    r3.corr_identity(ctx, me)
     # --- (3) Module.init_time
     nmod = ctx.budget(25, 200)
     lines = []; per = []
@@ -976,6 +979,16 @@ def _r2(name):
 ORACLES.update({k: _r2(k) for k in ('arith_consistency', 'no_alias', 'nan', 'dist_wrap', 'pow')})
 
 
+def _r3(name):
+    def f(a):
+        from harness.props import c06_round3 as r3
+        return r3.ORACLES[name](a, sys.modules[__name__])
+    return f
+
+
+ORACLES.update({k: _r3(k) for k in ('history', 'rateprob_mono')})
+
+
 def run_oracle(ctx, name, args):
     try:
         fails = ORACLES[name](args)
@@ -1058,6 +1071,8 @@ def search(ctx):
         run_oracle(ctx, 'reject', dict(kind=kind, how='neg', v=0.5, unit='day', punit='week', pdt=1.0))
     from harness.props import c06_round2 as r2
     r2.search(ctx, sys.modules[__name__], run_oracle)
+    from harness.props import c06_round3 as r3
+    r3.search(ctx, sys.modules[__name__], run_oracle)
     # the stored inputs of the known findings (re-run on every invocation)
     for k in ctx.known:
         r = k.get('replay')
